@@ -426,6 +426,9 @@ def run_ucg(ucg, args, cwd, home, trace_file=None, timeout=30):
         elif rc == 101:
             crashed = "panic"
     except subprocess.TimeoutExpired as e:
+        if timeout < 150:
+            # a loaded machine is not a hang: the time-out counts only when it reproduces with a generous limit
+            return run_ucg(ucg, args, cwd, home, trace_file=trace_file, timeout=180)
         rc = -999
         text = (e.stdout or b"").decode("utf-8", "replace")
         crashed = "timeout"
